@@ -941,7 +941,15 @@ class EventListenerPool(ProcessGroupBase):
         while self.event_buffer:
             # dispatch the oldest event
             event = self.event_buffer.pop(0)
-            ok = self._dispatchEvent(event)
+            try:
+                ok = self._dispatchEvent(event)
+            except OSError as why:
+                # an unexpected error while writing to a listener's stdin
+                # must not end the main loop: the event stays buffered
+                self.config.options.logger.error(
+                    'pool %s could not send event %s to a listener: %s' % (
+                    as_string(self.config.name), event.serial, why))
+                ok = False
             if not ok:
                 # if we can't dispatch an event, rebuffer it and stop trying
                 # to process any further events in the buffer
